@@ -20,10 +20,12 @@ INVARIANTS = ["Inv_Precedence", "Inv_UnknownIgnored", "Inv_Offline", "Inv_Output
 PLAN = {
     "quick": [("prec", "prec", "small", 0, None, None), ("unk", "unk", "small", 0, None, None),
               ("pair", "pair", "small", 0, None, None),
+              ("conf", "conf", "small", 0, None, None), ("lit", "lit", "small", 0, None, None),
               ("table3", "table", "small", 3, None, None), ("ext2", "ext", "small", 2, None, None),
               ("rtable", "rtable", "small", 0, 1600, None), ("dense", "dense", "big", 0, 1200, None)],
     "thorough": [("prec", "prec", "big", 0, None, None), ("unk", "unk", "small", 0, None, None),
                  ("pair", "pair", "big", 0, None, None),
+                 ("conf", "conf", "big", 0, None, None), ("lit", "lit", "small", 0, None, None),
                  ("table", "table", "small", 17, None, None), ("ext3", "ext", "small", 3, None, None),
                  ("dense", "dense", "big", 0, 16000, None)],
 }
@@ -38,7 +40,11 @@ ASSUMPTIONS = [
     "words, 'true'/'false' in several cases, small numerals, short words, the empty text)",
     "`no_gpg` set to something true in a source counts as `gpg = False` in that source (the alias in _update_dict)",
     "the file uses the [insights-client] section; output paths are new names in an existing directory; "
-    "`conf` itself is set by the harness on the command line",
+    "the generated file is handed over with --conf / -c (reported as a command-line occurrence of the option "
+    "`conf` in every trace); mode conf additionally gives `conf` in the file / the environment next to other "
+    "switches, and loads without --conf read the (non-existing) built-in default path",
+    "a text given for an option that is not typed by its default is the value as written, whatever characters "
+    "it holds (LiteralWords of ClientConfig.tla: percent signs, %(name)s / ${name}, ';', '#', ':', '=')",
     "implication table: full product of default / non-default for the 17 options C16 names (thorough), all "
     "assignments with at most 3 non-default options plus random full-product cases (quick)",
 ]
@@ -116,7 +122,8 @@ def explore(d, tier, rng):
     return models, cases, emitted
 
 
-NSELF = 6
+NSELF = 8
+LITERALS = ("100%safe", "a%%b", "%(username)s", "${username}", "p%40ss:x=y", "a;b#c")   # LiteralWords (accounting only)
 
 
 def selftests(traces, options):
@@ -157,6 +164,14 @@ def selftests(traces, options):
         if "offline" not in loaded and "checkin" not in loaded:
             add("resolved", t, 2, "RejectedNotResolved",
                 lambda e: (setv(e[0]["cfg"], "offline", true), setv(e[0]["cfg"], "checkin", true)))
+        envconf = [r for r in t["lay"]["env"] if r["name"] == "conf" and r["text"].lower() not in ("true", "false")]
+        if envconf and any(r["name"] == "conf" for r in t["lay"]["cli"]) and len(t["lay"]["cli"]) > 1:
+            add("conf-from-env", t, 0, "Precedence",
+                lambda e: setv(e[0]["cfg"], "conf", {"t": "str", "b": False, "n": 0, "s": envconf[0]["text"]}))
+        lit = [r["name"] for r in t["lay"]["file"] if r["text"] in LITERALS and r["name"] in loaded
+               and not any(x["name"] == r["name"] for x in t["lay"]["env"] + t["lay"]["cli"])]
+        if lit:
+            add("literal-lost", t, 0, "Precedence", lambda e: setv(e[0]["cfg"], lit[0], None))
         if evs[2].get("unknown"):
             add("unknown-set", t, 2, "UnknownIgnored", lambda e: e[2]["unknown"][0].update(state="injected"))
         if len(want) == NSELF:
@@ -231,6 +246,14 @@ def account(traces):
         c["outcome:" + last["ev"] + (":" + last.get("stage", "") if last["ev"] == "error" else "")] += 1
         for name, srcs in per.items():
             c["sources:" + "+".join(sorted(srcs))] += 1
+        conf_in = [layer for layer in ("file", "env", "cli") if any(r["name"] == "conf" for r in lay[layer])]
+        if len(conf_in) > 1 and "cli" in conf_in:
+            c["conf-below-command-line:%s" % ("with-other-switches" if len(lay["cli"]) > 1 else "alone")] += 1
+        if conf_in == ["env"]:
+            c["conf-in-environment-only"] += 1
+        for layer in ("file", "env", "cli"):
+            if any(r.get("text", r.get("arg")) in LITERALS for r in lay[layer]):
+                c["literal-text:" + layer] += 1
         if any(len(s) > 1 for s in per.values()):
             c["option-in-several-sources"] += 1
         if last.get("unknown"):
@@ -254,7 +277,9 @@ def account(traces):
 REQUIRED = ["sources:file", "sources:env", "sources:cli", "sources:env+file", "sources:cli+env+file",
             "option-in-several-sources", "unknown-name-given", "offline-loaded:final", "offline-loaded:error",
             "output-loaded:final", "obfuscate_hostname-loaded:final", "obfuscate_hostname-loaded:error",
-            "outcome:final", "outcome:error:validate"]
+            "outcome:final", "outcome:error:validate",
+            "conf-below-command-line:with-other-switches", "conf-below-command-line:alone", "conf-in-environment-only",
+            "literal-text:file", "literal-text:env", "literal-text:cli"]
 
 
 def run(prop, tier):
@@ -296,7 +321,9 @@ def run(prop, tier):
     ev = lib.evidence(
         prop, tier, models, val, evaluations=len(traces), distinct_nontrivial=nontrivial,
         rule="cases are enumerated by TLC from ClientConfigMC: prec = every option of DEFAULT_OPTS x every subset "
-             "of {file, environment, command line} x the spellings of the vocabulary; unk = unknown names and "
+             "of {file, environment, command line} x the spellings of the vocabulary; conf = the option `conf` in the file / "
+             "environment x --conf next to 0-2 other switches (every switch once); lit = every untyped option x "
+             "the literal texts x the sources; unk = unknown names and "
              "ill-typed siblings; table/ext = assignments of default / non-default to the options of the "
              "implication table (weight bound per tier; thorough: full product of the 17 options C16 names); "
              "rtable/dense = TLC -simulate random cases.  Each case is one real load_all(); each observation is "
